@@ -38,8 +38,15 @@ pub fn reseed(seed: u64) {
     // initialisation consumes entropy at a run-dependent point
     let mut rng = rand::rng();
     let _ = rng.next_u32();
+    // rand 0.10 (used by quinn-proto) keeps a thread generator of its own
+    let mut rng10 = rand10::rng();
+    {
+        use rand10::Rng as _;
+        let _ = rng10.next_u32();
+    }
     STATE.with(|s| s.set(seed ^ 0xA5A5_5A5A_C3C3_3C3C));
     rng.reseed().expect("reseed");
+    rng10.reseed().expect("reseed rand 0.10");
 }
 
 pub fn draws() -> u64 {
